@@ -1,46 +1,81 @@
-(* C07 — html=True output is balanced and escaped.  Statements only; proofs
-   in proofs/TokFacts.v. *)
-From Coq Require Import List NArith.
-From D2P Require Import Str Err Xml Merge Collector Walk TokFacts.
+(* C07 — html=True output is balanced, escaped, faithful, and projects onto plain output.
+   Statements only (copied from the lemma libraries); every proof is a bare
+   `exact`; see the cited files in coq/proofs for the proofs. *)
+From Coq Require Import List NArith ZArith Bool Arith Sorting.Sorted Sorting.Permutation.
+From D2P Require Import Str Err Xml TableTypes Tables Fmt Merge Collector Walk TokFacts MiscFacts.
 Import ListNotations.
 Open Scope N_scope.
 
-(* every paragraph string of every document (any nesting, nested paragraphs
-   and hyperlink bodies included) is tag-balanced: each tag opened is closed
-   in the same paragraph in properly nested order *)
-Theorem C07_balanced : forall v path t s ps p rs,
+(* every paragraph string of every document (any nesting, nested paragraphs and hyperlink bodies included) is tag-balanced: each tag opened is closed in the same paragraph in properly nested order *)
+Theorem C07_balanced :
+  forall v path t s ps p rs,
   collect_from v path t = Ok s -> pars_at 4%nat (c_tree s) = Ok ps -> In p ps ->
   par_run_toks p = Ok rs -> balanced (concat rs).
 Proof. exact balanced_paragraphs. Qed.
 Print Assumptions C07_balanced.
 
-(* escaped document text contains no angle bracket ... *)
-Theorem C07_escape_no_angle : forall s,
+(* escaped document text contains no angle bracket *)
+Theorem C07_escape_no_angle :
+  forall s,
   ~ In 60 (render true (map TTxt s)) /\ ~ In 62 (render true (map TTxt s)).
 Proof. exact escape_no_angle. Qed.
 Print Assumptions C07_escape_no_angle.
 
-(* ... every ampersand in it starts one of the three entities ... *)
-Theorem C07_escape_amp : forall s l1 l2,
+(* every ampersand in it starts one of the three entities *)
+Theorem C07_escape_amp :
+  forall s l1 l2,
   render true (map TTxt s) = l1 ++ 38 :: l2 ->
   starts_with [97;109;112;59] l2 = true \/ starts_with [108;116;59] l2 = true
   \/ starts_with [103;116;59] l2 = true.
 Proof. exact escape_amp_entity. Qed.
 Print Assumptions C07_escape_amp.
 
-(* ... unescaping gives the text back, which is what html=False emits *)
-Theorem C07_unescape : forall s, unescape (render true (map TTxt s)) = s.
+(* unescaping gives the text back *)
+Theorem C07_unescape :
+  forall s, unescape (render true (map TTxt s)) = s.
 Proof. exact unescape_escape. Qed.
 Print Assumptions C07_unescape.
 
-Theorem C07_plain_text : forall s, render false (map TTxt s) = s.
+(* which is what html=False emits *)
+Theorem C07_plain_text :
+  forall s, render false (map TTxt s) = s.
 Proof. exact render_plain_txt. Qed.
 Print Assumptions C07_plain_text.
 
-(* the character-wise escaping of the model is the three str.replace calls of
-   the source *)
-Theorem C07_escape_is_replace : forall s,
-  render true (map TTxt s)
-  = replace [62] [38;103;116;59] (replace [60] [38;108;116;59] (replace [38] [38;97;109;112;59] s)).
+(* the character-wise escaping of the model is the three str.replace calls of the source *)
+Theorem C07_escape_is_replace :
+  forall s,
+  render true (map TTxt s) =
+  replace [62] [38;103;116;59] (replace [60] [38;108;116;59] (replace [38] [38;97;109;112;59] s)).
 Proof. exact escape_is_python_replace. Qed.
 Print Assumptions C07_escape_is_replace.
+
+(* with the formatter table regenerated from the source: every tag a run's properties produce starts with a word of the documented vocabulary, provided vertAlign is superscript or subscript *)
+Theorem C07_vocabulary :
+  forall e ks pr st,
+  gather_Pr e ks = Ok pr -> vals_ok pr ->
+  get_run_formatting e ks xml2html_table = Ok st ->
+  Forall (fun x => exists w, first_word x = Ok w /\ in_vocab w = true) st.
+Proof. exact run_formatting_vocab. Qed.
+Print Assumptions C07_vocabulary.
+
+(* the same for any property list *)
+Theorem C07_vocabulary_all_entries :
+  forall pr st,
+  vals_all pr -> format_Pr_into_html pr xml2html_table = Ok st -> Forall tag_ok st.
+Proof. exact format_vocab_all. Qed.
+Print Assumptions C07_vocabulary_all_entries.
+
+(* html=False produces no tags at all *)
+Theorem C07_no_tags_without_html :
+  forall pr, format_Pr_into_html pr [] = Ok [].
+Proof. exact format_empty_table. Qed.
+Print Assumptions C07_no_tags_without_html.
+
+(* known finding D9: vertAlign=baseline produces <bas>, outside the vocabulary *)
+Theorem C07_baseline_refuted :
+  exists pr st,
+  format_Pr_into_html pr xml2html_table = Ok st /\
+  ~ Forall (fun x => exists w, first_word x = Ok w /\ in_vocab w = true) st.
+Proof. exact baseline_refuted. Qed.
+Print Assumptions C07_baseline_refuted.
